@@ -84,9 +84,14 @@ static size_t fmt_site(char *buf, size_t n, void *site) {
     return (size_t) snprintf(buf, n, "?+%p", site);
 }
 
+/* distinct allocating call sites seen so far (reported when the set has grown since the last report) */
+#define MAXSITES 512
+static void *allsites[MAXSITES]; static int nallsites, reported_sites;
+
 static void note(void *p, size_t size, void *site) {
     if (!p || in_boot(p)) return;
     pthread_mutex_lock(&mu);
+    { int i; for (i = 0; i < nallsites; i++) if (allsites[i] == site) break; if (i == nallsites && nallsites < MAXSITES) allsites[nallsites++] = site; }
     unsigned h = hash(p), first_free = TAB_SIZE;
     for (unsigned i = 0; i < TAB_SIZE; i++) {
         struct ent *e = &tab[(h + i) & (TAB_SIZE - 1)];
@@ -193,6 +198,21 @@ static void dump(void) {
     for (int i = 0; i < no; i++) o += (size_t) snprintf(out + o, sizeof out - o, "%s%s:%lu:%lu", i ? "," : "", oth[i].name, oth[i].count, oth[i].bytes);
     o += (size_t) snprintf(out + o, sizeof out - o, "\n");
     (void)!write(fd, out, o);
+    if (nallsites > reported_sites) {       /* every call site in the library under test that has allocated so far */
+        o = (size_t) snprintf(out, sizeof out, "allocsites\t");
+        int first = 1;
+        for (int i = 0; i < nallsites; i++) {
+            Dl_info di;
+            if (allsites[i] && dladdr(allsites[i], &di) && di.dli_fname && strstr(di.dli_fname, want)) {
+                const char *b = strrchr(di.dli_fname, '/'); b = b ? b + 1 : di.dli_fname;
+                o += (size_t) snprintf(out + o, sizeof out - o, "%s%s+0x%lx", first ? "" : ",", b, (unsigned long)((char *)allsites[i] - (char *)di.dli_fbase));
+                first = 0;
+            }
+        }
+        o += (size_t) snprintf(out + o, sizeof out - o, "\n");
+        (void)!write(fd, out, o);
+        reported_sites = nallsites;
+    }
 }
 
 struct mallinfo2 mallinfo2(void) {
